@@ -32,13 +32,14 @@ structure Cache where
   nTomb : Int
   freeze : Int
   mru : List G               -- head = most recently used; tail end is evicted first
+  clock : Nat                -- number of operations applied so far: names the next glyph object
 deriving Repr
 
 def Slot.isEmpty : Slot → Bool | .empty => true | _ => false
 def Slot.isTomb : Slot → Bool | .tomb => true | _ => false
 
 def create (p : Params) : Cache :=
-  { table := List.replicate p.hashSize .empty, nGlyphs := 0, nTomb := 0, freeze := 0, mru := [] }
+  { table := List.replicate p.hashSize .empty, nGlyphs := 0, nTomb := 0, freeze := 0, mru := [], clock := 0 }
 
 def Cache.get (c : Cache) (p : Params) (i : Nat) : Slot := c.table.getD (i % p.hashSize) .empty
 def Cache.set (c : Cache) (p : Params) (i : Nat) (s : Slot) : Cache :=
@@ -122,17 +123,18 @@ inductive Res where
 deriving Repr, DecidableEq
 
 /-- the capacity test of pixman_glyph_cache_insert -/
-def full (p : Params) (c : Cache) : Bool := c.nGlyphs ≥ (p.hashSize : Int)
+def full (p : Params) (c : Cache) : Bool := c.nGlyphs + c.nTomb ≥ (p.hashSize : Int) - 1
 
 inductive Op where
   | freeze | thaw
-  | insert (id font key : Nat)
+  | insert (font key : Nat)
   | lookup (font key : Nat)
   | remove (font key : Nat)
   | touch (font key : Nat)      -- glyph drawn: moved to the front of the MRU list
 deriving Repr, DecidableEq
 
-def step (p : Params) (h : Nat → Nat → Nat) (c : Cache) : Op → Cache × Res
+/-- one API call (without the clock tick) -/
+def stepCore (p : Params) (h : Nat → Nat → Nat) (c : Cache) : Op → Cache × Res
   | .freeze => ({ c with freeze := c.freeze + 1 }, .unit)
   | .thaw =>
     let c := { c with freeze := c.freeze - 1 }
@@ -142,11 +144,11 @@ def step (p : Params) (h : Nat → Nat → Nat) (c : Cache) : Op → Cache × Re
       | some c => (c, .unit)
       | none => (c, .hang)
     else (c, .unit)
-  | .insert id font key =>
+  | .insert font key =>
     if c.freeze ≤ 0 then (c, .refused)
     else if full p c then (c, .refused)
     else
-      let g : G := ⟨id, font, key⟩
+      let g : G := ⟨c.clock, font, key⟩
       match insertGlyph p h { c with mru := g :: c.mru } g with
       | some c => (c, .inserted g)
       | none => (c, .hang)
@@ -167,6 +169,11 @@ def step (p : Params) (h : Nat → Nat → Nat) (c : Cache) : Op → Cache × Re
     | some (some g) => ({ c with mru := g :: c.mru.filter (· ≠ g) }, .unit)
     | some none => (c, .unit)
     | none => (c, .hang)
+
+/-- one API call; the glyph object created by the n-th call of a history is named n -/
+def step (p : Params) (h : Nat → Nat → Nat) (c : Cache) (o : Op) : Cache × Res :=
+  let r := stepCore p h c o
+  ({ r.1 with clock := c.clock + 1 }, r.2)
 
 def run (p : Params) (h : Nat → Nat → Nat) : Cache → List Op → Cache × List Res
   | c, [] => (c, [])
